@@ -77,6 +77,10 @@ func main() {
 		probe(os.Args[2], os.Args[3])
 		return
 	}
+	if len(os.Args) >= 4 && os.Args[1] == "--probearg" {
+		probeArg(os.Args[2], os.Args[3], os.Args[4:])
+		return
+	}
 	if len(os.Args) >= 2 && os.Args[1] == "--child" {
 		child()
 		return
@@ -253,7 +257,7 @@ func runChild(c pcase) map[string]any {
 		ph, _ := os.ReadFile(filepath.Join(tmp, "phase"))
 		sock := dagSock(tmp)
 		_ = os.Remove(sock)
-		return map[string]any{"id": c.ID, "timeout": true, "phase": string(ph), "probes": collect(tmp, c.Want)}
+		return map[string]any{"id": c.ID, "timeout": true, "phase": string(ph), "probes": collect(tmp, c.Want), "argprobes": collectArgs(tmp)}
 	}
 	var res map[string]any
 	if e := json.Unmarshal(so.Bytes(), &res); e != nil {
@@ -301,6 +305,40 @@ func probe(pos, dir string) {
 		b.WriteByte(0)
 	}
 	_ = os.WriteFile(filepath.Join(dir, "probe."+strings.TrimSpace(string(ph))+"."+pos+".env"), b.Bytes(), 0o644)
+}
+
+// probeArg is the consumer whose `command:` names $OUT: blackdagger itself expands the variable (from ITS process
+// environment) into the argument list; the arguments received are written down.
+func probeArg(pos, dir string, args []string) {
+	ph, _ := os.ReadFile(filepath.Join(dir, "phase"))
+	var b bytes.Buffer
+	for _, a := range args {
+		b.WriteString(a)
+		b.WriteByte(0)
+	}
+	_ = os.WriteFile(filepath.Join(dir, "probearg."+strings.TrimSpace(string(ph))+"."+pos), b.Bytes(), 0o644)
+}
+
+// collectArgs: position -> hex arguments received by the command-line consumers
+func collectArgs(dir string) map[string][]string {
+	out := map[string][]string{}
+	files, _ := filepath.Glob(filepath.Join(dir, "probearg.*"))
+	for _, f := range files {
+		b, err := os.ReadFile(f)
+		if err != nil {
+			continue
+		}
+		args := []string{}
+		parts := bytes.Split(b, []byte{0})
+		for i, a := range parts {
+			if i == len(parts)-1 && len(a) == 0 {
+				break
+			}
+			args = append(args, hx(string(a)))
+		}
+		out[strings.TrimPrefix(filepath.Base(f), "probearg.")] = args
+	}
+	return out
 }
 
 func collect(dir string, want []string) map[string]map[string]*string {
@@ -370,6 +408,7 @@ func runDyn(c pcase, res map[string]any) {
 	_ = os.WriteFile(filepath.Join(tmp, "emit.sh"), []byte("d=\"$(dirname \"$0\")\"\ncat \"$d/payload.bin\"\ncat \"$d/errpayload.bin\" >&2\n"), 0o755)
 	_ = os.WriteFile(filepath.Join(tmp, "failer.sh"), []byte("d=\"$(dirname \"$0\")\"\nif [ -f \"$d/failed_once\" ]; then exit 0; fi\n: > \"$d/failed_once\"\nexit 1\n"), 0o755)
 	pr := func(pos string) string { return yq(self + " --probe " + pos + " " + tmp) }
+	pa := func(pos string) string { return yq(self + " --probearg " + pos + " " + tmp + " $OUT") }
 	var y strings.Builder
 	if c.Params != "" {
 		y.WriteString("params: " + yq(unhex(c.Params)) + "\n")
@@ -378,10 +417,12 @@ func runDyn(c pcase, res map[string]any) {
 	y.WriteString("  - name: before\n    command: " + pr("before") + "\n")
 	y.WriteString("  - name: producer\n    command: " + yq("sh "+filepath.Join(tmp, "emit.sh")) + "\n    output: OUT\n    depends: [before]\n")
 	y.WriteString("  - name: adjacent\n    command: " + pr("adjacent") + "\n    depends: [producer]\n")
+	y.WriteString("  - name: adjacentarg\n    command: " + pa("adjacentarg") + "\n    depends: [producer]\n")
 	y.WriteString("  - name: middle\n    command: \"true\"\n    depends: [adjacent]\n")
 	y.WriteString("  - name: distant\n    command: " + pr("distant") + "\n    depends: [middle]\n")
 	y.WriteString("  - name: failer\n    command: " + yq("sh "+filepath.Join(tmp, "failer.sh")) + "\n    depends: [distant]\n")
 	y.WriteString("  - name: afterfail\n    command: " + pr("afterfail") + "\n    depends: [failer]\n")
+	y.WriteString("  - name: afterfailarg\n    command: " + pa("afterfailarg") + "\n    depends: [failer]\n")
 	y.WriteString("handlerOn:\n")
 	y.WriteString("  success:\n    command: " + pr("onsuccess") + "\n")
 	y.WriteString("  failure:\n    command: " + pr("onfailure") + "\n")
@@ -441,6 +482,7 @@ func runDyn(c pcase, res map[string]any) {
 	res["run2_status"] = st2.Status.String()
 	res["run2_nodes"] = nodeStatuses(st2)
 	res["probes"] = collect(tmp, c.Want)
+	res["argprobes"] = collectArgs(tmp)
 }
 
 func nodeStatuses(st *model.Status) map[string]string {
